@@ -25,6 +25,28 @@ plan("C12", "exploration",
      {"tail-one-leader": 1}, "the quiet tail ended with the bounded-progress readings taken",
      {"quick": {"tail-member-checked": 30}, "thorough": {"tail-member-checked": 600}})
 
+for _pid, _trig, _txt in [
+    ("C01", {"leader-elected": 2}, "at least two leader elections"),
+    ("C02", {"fsm-apply": 20}, "at least 20 FSM applies"),
+    ("C03", {"leader-completeness-checked": 1}, "a leader elected after entries were known committed"),
+    ("C04", {"ae-success-with-entries": 10}, "at least 10 successful AppendEntries with entries"),
+    ("C05", {"leader-commit": 5}, "at least 5 leader commit advances"),
+    ("C06", {"vote-granted": 2}, "at least two granted votes"),
+    ("C07", {"cfg-entry-stored": 1}, "a configuration entry stored"),
+    ("C08", {"call-ok:apply": 10}, "at least 10 acknowledged Apply calls"),
+    ("C09", {"verify-ok": 1}, "a VerifyLeader that returned nil"),
+    ("C10", {"restart-checked": 2}, "at least two (re)starts checked against the durable image"),
+    ("C11", {"op:snap.close": 1}, "a snapshot persisted"),
+    ("C18", {"notify": 2}, "leadership notifications delivered"),
+]:
+    plan(_pid, "exploration", [sim("random", 40), sim("churn", 20)], [sim("random", 800), sim("churn", 400)], _trig, _txt)
+
+plan("C17", "exploration",
+     [sim("shutdown", 40), sim("random", 20)],
+     [sim("shutdown", 800), sim("random", 300), sim("churn", 300)],
+     {"call:apply": 10}, "client futures were observed (and, for the shutdown family, calls raced with and followed Shutdown)",
+     {"quick": {"after-shutdown-call": 100}, "thorough": {"after-shutdown-call": 2000}})
+
 ASSUMPTIONS = {
     "*": [
         "verdicts are 'held on the executions observed': schedules are sampled (Go scheduler nondeterminism + seeded virtual delays + nemesis), not enumerated",
